@@ -204,6 +204,7 @@ func (i *Invitation) UnmarshalXML(d *xml.Decoder, start xml.StartElement) error 
 	s := struct {
 		XMLName xml.Name `xml:"http://jabber.org/protocol/muc#user x"`
 		Invite  struct {
+			XMLName  xml.Name
 			To       jid.JID `xml:"to,attr"`
 			Reason   string  `xml:"reason"`
 			Continue struct {
@@ -216,6 +217,13 @@ func (i *Invitation) UnmarshalXML(d *xml.Decoder, start xml.StartElement) error 
 	err := d.DecodeElement(&s, &start)
 	if err != nil {
 		return err
+	}
+	if s.Invite.XMLName.Local == "" {
+		// The muc#user payload is also used for other things (declined
+		// invitations, status notifications, etc.); without an invite child it is
+		// not an invitation.
+		*i = Invitation{}
+		return nil
 	}
 	i.XMLName = s.XMLName
 	i.Continue = s.Invite.Continue.XMLName.Local != ""
